@@ -78,7 +78,7 @@ PROPS = {
     ),
     'C01': dict(
         title='Lexing and parsing are total',
-        verus=['lexer', 'tables', 'parser_core', 'parser_stmts', 'parser_exprs', 'parser_poetic', 'parser_names'], kani=['c01_'],
+        verus=['lexer', 'tables', 'parser_core', 'parser_stmts', 'parser_exprs', 'parser_poetic', 'parser_names', 'parser_primary'], kani=['c01_'],
         technique=V + ' — PARTIAL: lexer: slicing preconditions (valid char-boundary slice = no out-of-bounds read in debug or release), '
                       'u32 column / line arithmetic, the token loop match_loop (every branch ends on a boundary at or after the cursor, '
                       'the loop terminates, None only at the end of the buffer), scan_delimited, tokenize_word (non-empty stem); parser: '
@@ -92,7 +92,7 @@ PROPS = {
     ),
     'C02': dict(
         title='Every spelling of a program parses to the same syntax tree',
-        verus=['tables', 'parser_stmts', 'parser_core', 'parser_exprs', 'parser_poetic', 'parser_names', 'lexer'], kani=[],
+        verus=['tables', 'parser_stmts', 'parser_core', 'parser_exprs', 'parser_poetic', 'parser_names', 'parser_primary', 'lexer'], kani=[],
         technique=V + ' — PARTIAL: get_unary/binary/mutation_operator, get_rounding_direction, is_literal_word, Block::new '
                       'against reference tables; statement level of the grammar: the dispatch table (starting token -> statement '
                       'kind) and each statement parser against the sequence of sub-parser calls, required and optional words and '
@@ -145,7 +145,7 @@ PROPS = {
     ),
     'C13': dict(
         title='Syntax errors are rejected and attributed to the line they occur on',
-        verus=['parser_core', 'parser_stmts', 'parser_exprs', 'parser_names', 'lexer'], kani=[],
+        verus=['parser_core', 'parser_stmts', 'parser_exprs', 'parser_names', 'parser_primary', 'lexer'], kani=[],
         technique=V + ' — PARTIAL: over an abstract token stream (remaining tokens as a sequence): expect_token / expect_token_or_end / '
                       'expect_any / expect_eol consume exactly what they accept and otherwise return the error located at the '
                       'offending token (or the current line at end of input: new_parse_error); every statement in a block is followed '
